@@ -153,6 +153,9 @@ func toStr(v Val) (string, *refErr) {
 	case KStr:
 		return v.S, nil
 	case KNum:
+		if v.NZ {
+			ood("number->string conversion of a zero that may be negative zero in the float library")
+		}
 		return numToStr(v.N), nil
 	case KBool:
 		if v.B {
@@ -424,7 +427,9 @@ func (ev *refEval) eval(n *Node, sc *scope) (Val, *refErr) {
 			if e != nil {
 				return Val{}, e
 			}
-			return vNum(numCheck(new(big.Rat).Neg(r))), nil
+			out := vNum(numCheck(new(big.Rat).Neg(r)))
+			out.NZ = out.N.Sign() == 0
+			return out, nil
 		}
 		b, e := toBool(x)
 		if e != nil {
@@ -611,18 +616,24 @@ func (ev *refEval) binary(n *Node, sc *scope) (Val, *refErr) {
 	if e != nil {
 		return Val{}, e
 	}
+	// a zero result of an operation with a negative or tainted operand may be "-0"
+	nz := func(r *big.Rat) Val {
+		out := vNum(numCheck(r))
+		out.NZ = r.Sign() == 0 && (x.Sign() < 0 || y.Sign() < 0 || a.NZ || b.NZ)
+		return out
+	}
 	switch n.Op {
 	case "+":
-		return vNum(numCheck(new(big.Rat).Add(x, y))), nil
+		return nz(new(big.Rat).Add(x, y)), nil
 	case "-":
-		return vNum(numCheck(new(big.Rat).Sub(x, y))), nil
+		return nz(new(big.Rat).Sub(x, y)), nil
 	case "*":
-		return vNum(numCheck(new(big.Rat).Mul(x, y))), nil
+		return nz(new(big.Rat).Mul(x, y)), nil
 	case "/":
 		if y.Sign() == 0 {
 			ood("division by zero")
 		}
-		return vNum(numCheck(new(big.Rat).Quo(x, y))), nil
+		return nz(new(big.Rat).Quo(x, y)), nil
 	case "%":
 		if y.Sign() == 0 {
 			ood("modulo by zero")
@@ -631,7 +642,7 @@ func (ev *refEval) binary(n *Node, sc *scope) (Val, *refErr) {
 			ood("modulo on very large/small operands")
 		}
 		q := new(big.Rat).SetInt(truncQuo(x, y))
-		return vNum(numCheck(new(big.Rat).Sub(x, q.Mul(q, y)))), nil // x - y*trunc(x/y)
+		return nz(new(big.Rat).Sub(x, q.Mul(q, y))), nil // x - y*trunc(x/y)
 	case "<":
 		return vBool(x.Cmp(y) < 0), nil
 	case "<=":
@@ -670,6 +681,9 @@ func (ev *refEval) forExpr(n *Node, sc *scope) (Val, *refErr) {
 	pairs, e := iterate(coll)
 	if e != nil {
 		return Val{}, e
+	}
+	if len(pairs) == 0 && n.CondE != nil {
+		ood("for expression with an 'if' clause over an empty source (static check of the clause is not defined)")
 	}
 	if !n.ObjForm {
 		out := Val{K: KTuple, L: []Val{}}
@@ -856,6 +870,7 @@ func (ev *refEval) call(n *Node, sc *scope) (Val, *refErr) {
 			return Val{}, errf("arg-count", "add")
 		}
 		sum := new(big.Rat)
+		neg := false
 		for _, a := range args {
 			if a.K == KNull {
 				return Val{}, errf("arg-null", "null argument")
@@ -864,10 +879,15 @@ func (ev *refEval) call(n *Node, sc *scope) (Val, *refErr) {
 			if e != nil {
 				return Val{}, errf("arg-kind", "add needs numbers")
 			}
+			if r.Sign() < 0 || a.NZ {
+				neg = true
+			}
 			sum.Add(sum, r)
 			numCheck(sum)
 		}
-		return vNum(sum), nil
+		out := vNum(sum)
+		out.NZ = neg && sum.Sign() == 0
+		return out, nil
 	}
 }
 
